@@ -57,6 +57,20 @@ func alphabet() []opDesc {
 	return ops
 }
 
+// collisionAlphabet: one connection juggling three sub-channels of a watched channel whose ssids share one bucket
+// of the connection's subscription counters (equal xor-fold: cyclic permutations of the same levels).
+var collChans = []string{"a/p/q/r/", "a/q/r/p/", "a/r/p/q/"}
+
+func collisionAlphabet() []opDesc {
+	var ops []opDesc
+	for _, ch := range collChans {
+		ops = append(ops, opDesc{"sub", 1, ch}, opDesc{"unsub", 1, ch})
+	}
+	ops = append(ops, opDesc{Kind: "disconnect", C: 1})
+	ops = append(ops, opDesc{"sub", 2, collChans[0]})
+	return ops
+}
+
 type note struct {
 	Event   string `json:"event"`
 	Channel string `json:"channel"`
@@ -98,10 +112,26 @@ type inst struct {
 	hist    []opDesc
 	pending string
 	pwhat   string
+	probes  []string // channels whose status is requested in every state
+}
+
+var defaultProbes = []string{"a/", "a/b/", "a/b/c/", "b/"}
+
+// newInstVariant: the collision variant starts with W already watching a/ and probes the colliding channels.
+func (w *workerEnv) newInstVariant(variant string) *inst {
+	if variant != "collisions" {
+		return w.newInst(alphabet())
+	}
+	in := w.newInst(append([]opDesc{{"watch", 0, "a/"}}, collisionAlphabet()...))
+	in.probes = append([]string{"a/"}, collChans...)
+	in.Apply(0)
+	in.hist = nil
+	in.ops = in.ops[1:]
+	return in
 }
 
 func (w *workerEnv) newInst(ops []opDesc) *inst {
-	in := &inst{w: w, ops: ops, watch: map[string]bool{}}
+	in := &inst{w: w, ops: ops, watch: map[string]bool{}, probes: defaultProbes}
 	for i := 0; i < 3; i++ {
 		in.subs[i] = map[string]bool{}
 		in.alive[i] = true
@@ -262,7 +292,7 @@ func (in *inst) Check() (string, string) {
 		return in.sig(in.pending), in.pwhat
 	}
 	// status probes (do not change state)
-	for _, ch := range []string{"a/", "a/b/", "a/b/c/", "b/"} {
+	for _, ch := range in.probes {
 		resp, ok := in.cl[0].Request("presence", map[string]interface{}{"key": in.w.key, "channel": ch, "status": true})
 		if !ok || resp.Topic != "emitter/presence/" {
 			return in.sig("status-refused"), fmt.Sprintf("status request for %s answered with %v", ch, resp)
@@ -344,23 +374,28 @@ func (in *inst) Close() {
 }
 
 func run(c *core.Ctx) {
-	ops := alphabet()
-	names := make([]string, len(ops))
-	for i, o := range ops {
-		names[i] = o.String()
-	}
 	depth := 6
 	if !c.Quick() {
 		depth = 10
 	}
+	search(c, "", alphabet(), depth)
+	search(c, "collisions", collisionAlphabet(), depth)
+	c.Assume("single broker (cluster presence survey not configured); notifications are awaited through a FIFO barrier on the real presence queue")
+}
+
+func search(c *core.Ctx, variant string, ops []opDesc, depth int) {
+	names := make([]string, len(ops))
+	for i, o := range ops {
+		names[i] = o.String()
+	}
 	n := core.NumWorkers()
 	envs := make([]*workerEnv, n)
-	spec := &xstate.Spec{Name: "c18", Alphabet: names, Depth: depth, Workers: n, Deadline: c.Deadline,
+	spec := &xstate.Spec{Name: "c18" + variant, Alphabet: names, Depth: depth, Workers: n, Deadline: c.Deadline,
 		New: func(w int) xstate.Instance {
 			if envs[w] == nil {
 				envs[w] = newWorkerEnv()
 			}
-			return envs[w].newInst(ops)
+			return envs[w].newInstVariant(variant)
 		}}
 	res := xstate.Run(spec)
 	for _, e := range envs {
@@ -368,11 +403,11 @@ func run(c *core.Ctx) {
 			e.env.Close()
 		}
 	}
-	c.Set("states", res.States)
-	c.Set("transitions", res.Transitions)
-	c.Set("traces_validated_against_impl", res.Replays)
-	c.Set("depth_completed", res.DepthCompleted)
-	c.Set("alphabet", len(ops))
+	c.Add("states", int64(res.States))
+	c.Add("transitions", res.Transitions)
+	c.Add("traces_validated_against_impl", res.Replays)
+	c.Set("depth_completed"+variant, res.DepthCompleted)
+	c.Set("alphabet"+variant, len(ops))
 	if !res.Exhaustive {
 		c.NotExhaustive(fmt.Sprintf("time cap at depth %d (%d frontier states unexpanded)", res.DepthCompleted, res.FrontierLeft))
 	}
@@ -380,19 +415,23 @@ func run(c *core.Ctx) {
 		c.Sample(map[string]interface{}{"history": p})
 	}
 	for _, f := range res.Violations {
-		c.Violate(f.Sig, f.What, map[string]interface{}{"ops": f.Ops, "history": f.Path})
+		sig := f.Sig
+		if variant != "" {
+			sig = variant + ":" + sig
+		}
+		c.Violate(sig, f.What, map[string]interface{}{"variant": variant, "ops": f.Ops, "history": f.Path})
 	}
-	c.Assume("single broker (cluster presence survey not configured); notifications are awaited through a FIFO barrier on the real presence queue")
 }
 
 func replay(c *core.Ctx, raw json.RawMessage) {
 	var cs struct {
-		Ops []int `json:"ops"`
+		Variant string `json:"variant"`
+		Ops     []int  `json:"ops"`
 	}
 	json.Unmarshal(raw, &cs)
 	w := newWorkerEnv()
 	defer w.env.Close()
-	in := w.newInst(alphabet())
+	in := w.newInstVariant(cs.Variant)
 	for _, o := range cs.Ops {
 		in.Apply(o)
 	}
